@@ -41,8 +41,10 @@ def check(reg, tier):
     _convert_magnetism(reg)
     reg.assume("sin/cos of the polarisation angles enter mag_sld as the four arguments "
                "cos_mtheta, sin_mtheta, cos_mphi, sin_mphi with s^2+c^2=1; sqrt(x)^2 = x for x > 0")
-    reg.assume("I(-rho) = I(rho) (used to write the spin-flip term as (w_du+w_ud)[I(e1.M)+I(e2.M)]) "
-               "is a property of the individual models, not under contract here")
+    # I(-rho) = I(rho), used to write the spin-flip term as (w_du + w_ud) [I(e1.M) + I(e2.M)]: per model
+    from contracts import parity
+    parity.sld_parity(reg, PROP)
+    reg.assume(parity.ASSUMPTION)
 
 
 def _spin_weights(reg, tu):
